@@ -16,18 +16,25 @@ set_option linter.unusedVariables false
 namespace Poetry.Marker
 open Poetry Poetry.Generic
 
-/-- a reversed-operand leaf `"v" in name` / `"v" not in name` on a canonical string variable defined by `E`; the values
-of the `not in` leaves satisfy `C` -/
-def RevLeafW (W' : String → Prop) (C : String → Prop) (E : Env) (l : Leaf) : Prop :=
-  ∃ n ops gop v, (ops, gop) ∈ inOps ∧ n ∈ plainStringVars ∧ PlainTok v ∧ W' v ∧ (∃ ev, E.get? n = some ev) ∧
+/-- a reversed-operand leaf `"v" in name` / `"v" not in name` on a canonical string variable defined by `E`; the
+literal satisfies the token predicate `T` (what the constructor needs) and `W'`; the values of the `not in` leaves
+satisfy `C` -/
+def RevLeafT (T W' : String → Prop) (C : String → Prop) (E : Env) (l : Leaf) : Prop :=
+  ∃ n ops gop v, (ops, gop) ∈ inOps ∧ n ∈ plainStringVars ∧ T v ∧ W' v ∧ (∃ ev, E.get? n = some ev) ∧
     (gop = Generic.Op.nc → C v) ∧ l = .single ⟨n, ops, v, true, .gen (.s (.atom ⟨v, gop, false⟩))⟩
+
+/-- plain tokens (no quotes) -/
+abbrev RevLeafW (W' : String → Prop) (C : String → Prop) (E : Env) (l : Leaf) : Prop := RevLeafT PlainTok W' C E l
 
 /-- no condition on the values beyond plain tokens -/
 def RevLeaf (C : String → Prop) (E : Env) (l : Leaf) : Prop := RevLeafW (fun _ => True) C E l
 
 /-- string leaves with all four operators -/
-def Str4LeafW (W W' : String → Prop) (C : String → Prop) (E : Env) (l : Leaf) : Prop :=
-  StrLeafW (fun n => n ∈ plainStringVars) W E l ∨ RevLeafW W' C E l
+def Str4LeafT (T W W' : String → Prop) (C : String → Prop) (E : Env) (l : Leaf) : Prop :=
+  StrLeafW (fun n => n ∈ plainStringVars) W E l ∨ RevLeafT T W' C E l
+
+abbrev Str4LeafW (W W' : String → Prop) (C : String → Prop) (E : Env) (l : Leaf) : Prop :=
+  Str4LeafT PlainTok W W' C E l
 
 /-- plain values -/
 def Str4Leaf (C : String → Prop) (E : Env) (l : Leaf) : Prop := Str4LeafW PlainValue (fun _ => True) C E l
@@ -50,7 +57,7 @@ theorem inOps_gop {ops : String} {gop : Generic.Op} (h : (ops, gop) ∈ inOps) :
   simp only [inOps, List.mem_cons, Prod.mk.injEq, List.mem_nil_iff, or_false] at h
   rcases h with ⟨_, rfl⟩ | ⟨_, rfl⟩ <;> simp
 
-theorem str4Leaf_view {W W' : String → Prop} {C : String → Prop} {E : Env} {l : Leaf} (h : Str4LeafW W W' C E l) :
+theorem str4Leaf_view {T W W' : String → Prop} {C : String → Prop} {E : Env} {l : Leaf} (h : Str4LeafT T W W' C E l) :
     (l.name == "extra") = false ∧ isPyName l.name = false ∧ l.name ∈ plainStringVars ∧
     ∃ gc v, l.c = .gen gc ∧ gc.wf4 = true ∧ Shape4 C gc ∧
       (∀ x ∈ gc.atoms, x.isEqNe = true → W x.value) ∧
@@ -69,8 +76,8 @@ theorem str4Leaf_view {W W' : String → Prop} {C : String → Prop} {E : Env} {
     · simp only [Leaf.validate]
       exact validateLike_gen n _ E b1 ev hev
 
-theorem str4Leaf_evaluable {W W' : String → Prop} {C : String → Prop} {E : Env} {l : Leaf}
-    (h : Str4LeafW W W' C E l) :
+theorem str4Leaf_evaluable {T W W' : String → Prop} {C : String → Prop} {E : Env} {l : Leaf}
+    (h : Str4LeafT T W W' C E l) :
     ∃ b, l.validate E = .ok b := by
   obtain ⟨_, _, _, gc, v, _, _, _, _, _, hv⟩ := str4Leaf_view h
   exact ⟨_, hv⟩
@@ -269,11 +276,11 @@ macro "str4_tail" : tactic => `(tactic| (
 /-- **`_merge_single_markers` on two string leaves with any of the four operators** (values of the `not in` leaves
 pairwise comparable by containment): every outcome is a leaf of the fragment and is the exact
 conjunction / disjunction -/
-theorem str4Leaf_mergeK {W W' : String → Prop} {E : Env} (HK : MkAtomOKW (fun n => n ∈ plainStringVars) W E)
+theorem str4Leaf_mergeK {T W W' : String → Prop} {E : Env} (HK : MkAtomOKW (fun n => n ∈ plainStringVars) W E)
     {C : String → Prop} (hC : ∀ u v, C u → C v → strIn u v = true ∨ strIn v u = true)
     (l1 l2 : Leaf) (im : Bool) (r : M)
-    (hh1 : Str4LeafW W W' C E l1) (hh2 : Str4LeafW W W' C E l2) (h : mergeLeaves l1 l2 im = .ok (some r)) :
-    M.Good (Str4LeafW W W' C E) r ∧
+    (hh1 : Str4LeafT T W W' C E l1) (hh2 : Str4LeafT T W W' C E l2) (h : mergeLeaves l1 l2 im = .ok (some r)) :
+    M.Good (Str4LeafT T W W' C E) r ∧
       M.sem (leafEval E) r = (if im then (leafEval E l1 && leafEval E l2) else (leafEval E l1 || leafEval E l2)) := by
   obtain ⟨hx1, hp1, hn1, g1, v1, hc1, hw1, sh1, hW1, hv1, he1⟩ := str4Leaf_view hh1
   obtain ⟨hx2, hp2, hn2, g2, v2, hc2, hw2, sh2, hW2, hv2, he2⟩ := str4Leaf_view hh2
@@ -325,8 +332,8 @@ theorem inOps_inj {ops : String} {g1 g2 : Generic.Op} (h1 : (ops, g1) ∈ inOps)
   simp only [inOps, List.mem_cons, Prod.mk.injEq, List.mem_nil_iff, or_false] at h1 h2
   rcases h1 with ⟨rfl, rfl⟩ | ⟨rfl, rfl⟩ <;> rcases h2 with ⟨h, rfl⟩ | ⟨h, rfl⟩ <;> first | rfl | (revert h; decide)
 
-theorem str4Leaf_congr {W W' : String → Prop} {C : String → Prop} {E : Env} (a b : Leaf)
-    (ha : Str4LeafW W W' C E a) (hb : Str4LeafW W W' C E b)
+theorem str4Leaf_congr {T W W' : String → Prop} {C : String → Prop} {E : Env} (a b : Leaf)
+    (ha : Str4LeafT T W W' C E a) (hb : Str4LeafT T W W' C E b)
     (h : Leaf.beq a b = true) : leafEval E a = leafEval E b := by
   rcases ha with ha | ⟨n1, o1, g1, v1, hop1, _, _, _, _, _, rfl⟩
   · rcases hb with hb | ⟨n2, o2, g2, v2, hop2, _, _, _, _, _, rfl⟩
@@ -354,26 +361,26 @@ theorem str4Leaf_congr {W W' : String → Prop} {C : String → Prop} {E : Env} 
       rw [inOps_inj hop1 hop2]
 
 /-- the same with the constructor fact derived from plain values -/
-theorem str4Leaf_merge {W W' : String → Prop} (hW : ∀ v, W v → PlainValue v) {C : String → Prop}
+theorem str4Leaf_merge {T W W' : String → Prop} (hW : ∀ v, W v → PlainValue v) {C : String → Prop}
     (hC : ∀ u v, C u → C v → strIn u v = true ∨ strIn v u = true)
     {E : Env} (l1 l2 : Leaf) (im : Bool) (r : M)
-    (hh1 : Str4LeafW W W' C E l1) (hh2 : Str4LeafW W W' C E l2) (h : mergeLeaves l1 l2 im = .ok (some r)) :
-    M.Good (Str4LeafW W W' C E) r ∧
+    (hh1 : Str4LeafT T W W' C E l1) (hh2 : Str4LeafT T W W' C E l2) (h : mergeLeaves l1 l2 im = .ok (some r)) :
+    M.Good (Str4LeafT T W W' C E) r ∧
       M.sem (leafEval E) r = (if im then (leafEval E l1 && leafEval E l2) else (leafEval E l1 || leafEval E l2)) :=
   str4Leaf_mergeK (mkAtomOKW_of hW E) hC l1 l2 im r hh1 hh2 h
 
 /-- `LeafSpec` on string leaves with all four operators, relative to the constructor fact on the `==` / `!=` values -/
-theorem leafSpec_str4K {W W' : String → Prop} {E : Env} (HK : MkAtomOKW (fun n => n ∈ plainStringVars) W E)
+theorem leafSpec_str4K {T W W' : String → Prop} {E : Env} (HK : MkAtomOKW (fun n => n ∈ plainStringVars) W E)
     {C : String → Prop} (hC : ∀ u v, C u → C v → strIn u v = true ∨ strIn v u = true) :
-    LeafSpec (leafEval E) (Str4LeafW W W' C E) where
+    LeafSpec (leafEval E) (Str4LeafT T W W' C E) where
   congr := fun a b ha hb h => str4Leaf_congr a b ha hb h
   merge := fun l1 l2 im r h1 h2 h => str4Leaf_mergeK HK hC l1 l2 im r h1 h2 h
 
 /-- **`LeafSpec` on string leaves with all four operators**, the values of the `not in` leaves pairwise comparable
 by containment: no other hypothesis -/
-theorem leafSpec_str4W {W W' : String → Prop} (hW : ∀ v, W v → PlainValue v) {C : String → Prop}
+theorem leafSpec_str4W {T W W' : String → Prop} (hW : ∀ v, W v → PlainValue v) {C : String → Prop}
     (hC : ∀ u v, C u → C v → strIn u v = true ∨ strIn v u = true)
-    (E : Env) : LeafSpec (leafEval E) (Str4LeafW W W' C E) where
+    (E : Env) : LeafSpec (leafEval E) (Str4LeafT T W W' C E) where
   congr := fun a b ha hb h => str4Leaf_congr a b ha hb h
   merge := fun l1 l2 im r h1 h2 h => str4Leaf_merge hW hC l1 l2 im r h1 h2 h
 
